@@ -657,6 +657,8 @@ func Input(l *InputSharedVars, g *GlobalVarsMain, hPath *HFilePath, driConfig *C
 								_, valEinte := g.Datum(g.TILDAT[NRTILindex])
 								g.EINTE[NRTIL] = valEinte
 								if g.EINTE[NRTIL] < g.BEGINN {
+									// dropped: do not leave the date in the slot, the tillage cursor would still reach it
+									g.EINTE[NRTIL] = 0
 									NRTIL--
 								}
 								SCHLAG, tilageTokens, valid = NextLineInut(0, scannertilage, strings.Fields)
